@@ -16,12 +16,14 @@ func rulesC06(c *Ctx) {
 		"R6.1 every path through one iteration of doModify's loop over the request's operations emits exactly one message (result or error)",
 		"R6.2 modifyEntry maps each ok to RIB_PROGRAMMED then (only under fibACK) FIB_PROGRAMMED with the same id, each fail to FAILED; every other AFTResult literal of package server is FAILED with the operation's own id",
 		"R6.3 addEntryInternal: every attempt ends in exactly one of {append fails, append oks, addPending}, and a terminal verdict is accompanied by rmPending",
-		"R6.4 results of held operations of any session are accumulated into the resolving caller's result lists (owner-less pendingEntry)")
+		"R6.4 results of held operations of any session are accumulated into the resolving caller's result lists (owner-less pendingEntry)",
+		"R6.5 a held operation is answered as soon as it is resolvable: after every install every held operation is re-submitted with its own instance and operation (shared with C02 R2.4)")
 	c.NotDec = append(c.NotDec, "eventual delivery", "hand-over timing between sessions", "gRPC stream ordering")
 	ruleExactlyOneReply(c)
 	ruleResultMapping(c)
 	ruleOneVerdict(c)
 	ruleHeldOwner(c)
+	ruleRetryAfterInstall(c)
 }
 
 // R6.1
